@@ -11,6 +11,7 @@ CONSTANTS
   ResetChoices <- RepairedOnly
   TamperTags <- AllTags
   CacheChoices = {"none"}
+  AckCodeChoices <- CodeAcks
   Concurrent = FALSE
   RecordHist = TRUE
 INVARIANT Emit
